@@ -47,7 +47,8 @@ func init() {
 			"map order, clock, GC points, ballast, rand, pid, env": "stub (verifsimrt), decided by the schedule",
 			"fresh-process runs":                                  "real OS processes of the same harness binary (subcommand 'one')",
 		},
-		ReachTargets: []string{"fault.map_order_non_identity", "reach.site.ast/expr.go#1", "reach.site.interpreter/interpreter.go#1", "reach.site.interpreter/nativeFunctionObject.go#1", "reach.site.interpreter/nativeFunctionObject.go#2", "fault.fresh_process_runs", "fault.gc_points_scheduled", "fault.heap_ballast_runs"},
+		// (per-site counters "reach.site.<file>#<n>" are reported for whatever range-over-map sites the tree has)
+		ReachTargets: []string{"fault.map_order_non_identity", "fault.fresh_process_runs", "fault.gc_points_scheduled", "fault.heap_ballast_runs", "kind.churn", "kind.diag-heavy", "kind.frontend-errors", "kind.repl-session", "kind.example"},
 	})
 }
 
